@@ -31,6 +31,7 @@ func checkC01(w *World, r *Report, tier string) propMeta {
 	c01R4(w, r)
 	c01R5(w, r)
 	c01R7(w, r)
+	c03R4(w, r) // entry sets never alias a pooled buffer: a necessary condition for the filters to contain what was written
 	return propMeta{
 		explanation: fmt.Sprintf("Six structural necessary conditions of 'no false negatives': (R1) one walker, one canonicaliser — pathWalker.walk is called only by indexing and by row verification, both read leaf text through leafTokenInput, neither reaches the reference enumerator, entry sets are written only by indexRow/addFieldToken/unionInto and every filter is built by buildSizedBloomFilter; (R2) the tokenisation siblings agree — both sides gate the fast path on isBasicWhitespaceLowerTokenizer of the same configured tokenizer, use the same forEachWord/appendFoldedWord pair, call the configured tokenizer on the same text otherwise, and use the same delimiter; (R3) prune ≥ row: for every small bloom tree (depth ≤ 2) and every truth assignment of its leaves the pruning verdict (evaluateBloomExpression with filters answering the assignment) is true whenever the row verdict (compileBloomExpression + evalMatcherNode) is, absent filters fail open, and the regex field guard is at least as permissive as the compiled regex matcher — %d cases by abstract interpretation; (R4) the regex guard is a field-existence test on the condition's own path; (R5) pruning points prune only on a negative filter verdict or a recorded error, and a filter section that is not in the chunk just read is an error, never a guess; (R6) = C18 (filters complete w.r.t. entry sets at every level) and C11.R1 (merge re-streams every row).", n),
 		notDecided:  "That the walker implements the documented path semantics; that forEachWord/appendFoldedWord equal strings.Fields(strings.ToLower(·)); chunk-window arithmetic in readChunkFrom/heldSection; bloom hashing; gjson's parse. These are value-level and belong to differential testing.",
